@@ -118,6 +118,9 @@ let user_str (d : memdict) =
   Stdlib.String.concat ";" (Stdlib.List.sort compare ents)
 
 (* ---- the oracle ---- *)
+(* capi cases load the system dictionary as a trie FILE (mdf_ops); editor cases as a TrieBuf (md_ops) *)
+let capi_mode = ref false
+let dops () = if !capi_mode then EdInst.mdf_ops else EdInst.md_ops
 let queue : logged list ref = ref []
 let cur_editor : medl option ref = ref None
 let problems : string list ref = ref []
@@ -126,13 +129,13 @@ let pending : (composition * logged) list ref = ref []
 let validate_pending (before : medl option) (after : medl option) =
   Stdlib.List.iter
     (fun (c, l) ->
-      let ok e = match e with Some e -> ml_valid_conv e c l.l_result | None -> false in
+      let ok e = match e with Some e -> ml_valid_conv (dops ()) e c l.l_result | None -> false in
       (* the engine model (Model/Engine.v) predicts the alternative itself whenever it is exact *)
       let predicted e =
         match e with
         | None -> false
         | Some e -> (
-            match ml_engine_alts e c with
+            match ml_engine_alts (dops ()) e c with
             | Lib.Ok (alts, big) ->
                 big
                 ||
@@ -175,7 +178,6 @@ let coq_string (s : string) =
 let cx_kb_ref = ref (n_of_int 0)
 let cx_sel_ref = ref CapiKeys.default_sel_keys
 let cx_kbcompat_ref = ref (n_of_int 0)
-let capi_mode = ref false
 let cctx_of (e : medl) : CapiKeys.cctx =
   { CapiKeys.cx_ed = e; cx_kb = !cx_kb_ref; cx_kbcompat = !cx_kbcompat_ref; cx_sel = !cx_sel_ref }
 let keep_ctx (c : CapiKeys.cctx) : medl =
@@ -209,16 +211,16 @@ let run_op (e : medl) (words : string list) : (medl * string) Lib.outcome =
   | [ "key"; idx; code; uni; s; c; cl; n ] ->
       let ev = { kindex = n_of_int (int_of_string idx); kcode = n_of_int (int_of_string code);
                  kunicode = n_of_int (int_of_string uni); mshift = s <> "0"; mctrl = c <> "0"; mcaps = cl <> "0"; mnum = n <> "0" } in
-      (match ml_key conv_oracle e ev with
+      (match ml_key (dops ()) conv_oracle e ev with
        | Lib.Ok (e', b) -> Lib.Ok (e', behavior_str b)
        | Lib.Err x -> Lib.Err x | Lib.Panic s -> Lib.Panic s | Lib.OutOfFuel -> Lib.OutOfFuel)
-  | [ "select"; n ] -> ok2 (ml_select conv_oracle e (nat_of_int (int_of_string n)))
+  | [ "select"; n ] -> ok2 (ml_select (dops ()) conv_oracle e (nat_of_int (int_of_string n)))
   | [ "cancel" ] -> let e', b = ml_cancel e in Lib.Ok (e', b01 b)
-  | [ "start" ] -> ok2 (ml_start_selecting e)
-  | [ "commit" ] -> ok2 (ml_commit conv_oracle e)
+  | [ "start" ] -> ok2 (ml_start_selecting (dops ()) e)
+  | [ "commit" ] -> ok2 (ml_commit (dops ()) conv_oracle e)
   | [ "clear" ] -> Lib.Ok (ml_clear e, "-")
   | [ "ack" ] -> Lib.Ok (ml_ack e, "-")
-  | [ "opts"; o ] -> ok1 (ml_set_options e (parse_opts o)) "-"
+  | [ "opts"; o ] -> ok1 (ml_set_options (dops ()) e (parse_opts o)) "-"
   | [ "engine"; k ] -> Lib.Ok (ml_set_engine e (match int_of_string k with 0 -> EngSimple | 1 -> EngChewing | _ -> EngFuzzy), "-")
   (* C entry points (the result printed is the C return code) *)
   | [ "ckey"; code; mods ] ->
@@ -251,20 +253,20 @@ let run_op (e : medl) (words : string list) : (medl * string) Lib.outcome =
        | _ -> failwith "cupremove")
   | [ "cseti"; name; v ] -> crc (CapiConfig.config_set_int_c (cctx_of e) (coq_string name) (Convz.z_of_int (int_of_string v)))
   | [ "creset" ] -> Lib.Ok (keep_ctx (CapiKeys.reset (cctx_of e)), "-")
-  | [ "layout"; k ] -> ok1 (ml_set_layout e (n_of_int (int_of_string k))) "-"
+  | [ "layout"; k ] -> ok1 (ml_set_layout (dops ()) e (n_of_int (int_of_string k))) "-"
   | [ "clearsyl" ] -> Lib.Ok (ml_clear_syl e, "-")
   | [ "get"; _ ] -> Lib.Ok (e, "-")    (* queries are functions of the state: the model's step is the identity *)
-  | [ "jnext" ] -> ok2 (ml_jump_next e)
-  | [ "jprev" ] -> ok2 (ml_jump_prev e)
-  | [ "jfirst" ] -> ok2 (ml_jump_first e)
-  | [ "jlast" ] -> ok2 (ml_jump_last e)
+  | [ "jnext" ] -> ok2 (ml_jump_next (dops ()) e)
+  | [ "jprev" ] -> ok2 (ml_jump_prev (dops ()) e)
+  | [ "jfirst" ] -> ok2 (ml_jump_first (dops ()) e)
+  | [ "jlast" ] -> ok2 (ml_jump_last (dops ()) e)
   | [ "learn"; kt ] ->
       (match split '|' kt with
-       | [ k; t ] -> ok2 (ml_learn e (ns_of '.' k) (ns_of '.' t))
+       | [ k; t ] -> ok2 (ml_learn (dops ()) e (ns_of '.' k) (ns_of '.' t))
        | _ -> failwith "learn")
   | [ "unlearn"; kt ] ->
       (match split '|' kt with
-       | [ k; t ] -> ok1 (ml_unlearn e (ns_of '.' k) (ns_of '.' t)) "1"
+       | [ k; t ] -> ok1 (ml_unlearn (dops ()) e (ns_of '.' k) (ns_of '.' t)) "1"
        | _ -> failwith "unlearn")
   | _ -> failwith ("bad op " ^ Stdlib.String.concat " " words)
 
@@ -284,7 +286,7 @@ let observe oc (e : medl) =
       go 0 ivs
     in
     let cands =
-      match (ml_candidates e, ml_total_page e, ed_page_no e) with
+      match (ml_candidates (dops ()) e, ml_total_page (dops ()) e, ed_page_no e) with
       | Lib.Ok (Some c), Lib.Ok (Some tp), Some pg ->
           Printf.sprintf "cands=%d:%s tp=%d pg=%d" (Stdlib.List.length c) (Stdlib.String.concat "," (Stdlib.List.map cps c)) (int_of_nat tp)
             (int_of_nat pg)
@@ -358,7 +360,7 @@ let conv_main trace out =
                 let d = { md_sys = !sys; md_user = !usr; md_grave = [] } in
                 let e0 = ml_init d (n_of_int 0) [] { ss_category = []; ss_table = []; ss_cursor = None } (n_of_int 0) in
                 let e = ml_set_engine e0 (match int_of_string k with 0 -> EngSimple | 1 -> EngChewing | _ -> EngFuzzy) in
-                (match ml_engine_alts e c with
+                (match ml_engine_alts (dops ()) e c with
                  | Lib.Ok (alts, big) ->
                      Printf.fprintf oc "MX %s exact=%s n=%d\n" k (b01 (not big)) (Stdlib.List.length alts);
                      Stdlib.List.iter
@@ -374,7 +376,7 @@ let conv_main trace out =
                 let d = { md_sys = !sys; md_user = !usr; md_grave = [] } in
                 let e0 = ml_init d (n_of_int 0) [] { ss_category = []; ss_table = []; ss_cursor = None } (n_of_int 0) in
                 let e = ml_set_engine e0 (match int_of_string k with 0 -> EngSimple | 1 -> EngChewing | _ -> EngFuzzy) in
-                Printf.fprintf oc "V %s valid=%s tiling=%s\n" k (b01 (ml_valid_conv e c ivs)) (b01 (Conversion.tiling_ok c ivs))
+                Printf.fprintf oc "V %s valid=%s tiling=%s\n" k (b01 (ml_valid_conv (dops ()) e c ivs)) (b01 (Conversion.tiling_ok c ivs))
             | k :: _, _ -> Printf.fprintf oc "V %s PANIC\n" k
             | _ -> ())
        | _ -> ()
